@@ -229,3 +229,29 @@ theorem context_roundtrip (c : Context) (h : ∀ r ∈ c.ruleset, RuleWF r) : Co
   rw [mapM_roundtrip Rule.toJson Rule.fromJson rs (fun r hr => rule_roundtrip r (h r hr))]
 
 end Schc
+
+namespace Schc
+
+theorem field_roundtrip (f : Field) : Field.fromJson f.toJson = .ok f := by
+  obtain ⟨id, v, pos⟩ := f
+  unfold Field.fromJson Field.toJson
+  rw [getD3_1, getD3_2 _ _ _ _ _ _ (by decide), getD3_3 _ _ _ _ _ _ (by decide) (by decide)]
+  simp only [bind, Except.bind, pure, Except.pure, Json.asStr, Json.asNat, abuf_roundtrip]
+
+theorem dir_roundtrip (d : Dir) : dirOfStr (enumValue Gen.directionValues (dirName d)) = .ok d := by
+  cases d <;> decide
+
+theorem packet_roundtrip (p : Packet) : Packet.fromJson p.toJson = .ok p := by
+  obtain ⟨dir, fields, payload, raw⟩ := p
+  unfold Packet.fromJson Packet.toJson
+  have g : ∀ k v, (Json.obj [("direction", .str (enumValue Gen.directionValues (dirName dir))), ("fields", .arr (fields.map Field.toJson)),
+        ("payload", payload.toJson), ("raw", raw.toJson), ("length", .num raw.length)]).get? k = some v →
+      (Json.obj [("direction", .str (enumValue Gen.directionValues (dirName dir))), ("fields", .arr (fields.map Field.toJson)),
+        ("payload", payload.toJson), ("raw", raw.toJson), ("length", .num raw.length)]).getD k = .ok v := by
+    intro k v hk; simp only [Json.getD, hk]; rfl
+  rw [g "direction" (.str (enumValue Gen.directionValues (dirName dir))) (by simp [Json.get?, List.find?]), g "fields" (.arr (fields.map Field.toJson)) (by simp [Json.get?, List.find?]),
+      g "payload" payload.toJson (by simp [Json.get?, List.find?]), g "raw" raw.toJson (by simp [Json.get?, List.find?])]
+  simp only [bind, Except.bind, pure, Except.pure, Json.asStr, Json.asArr, dir_roundtrip, abuf_roundtrip]
+  rw [mapM_roundtrip Field.toJson Field.fromJson fields (fun f _ => field_roundtrip f)]
+
+end Schc
